@@ -1698,6 +1698,10 @@ class Explorer(_BaseCtx):
             return z3.unknown, None
 
     def _sample(self, label, f, verdict):
+        if verdict == "unsat" and sum(1 for x in self.samples if x["verdict"] == "unsat") < 2:
+            self.samples.insert(0, dict(label=label, path_condition=[str(c)[:160] for c in self.pc[:8]],
+                                        obligation=str(f)[:400], verdict=verdict))
+            return
         if len(self.samples) < 6 and (self.stats["obligations"] % 7 == 1 or len(self.samples) < 2):
             self.samples.append(dict(label=label, path_condition=[str(c)[:160] for c in self.pc[:8]],
                                      obligation=str(f)[:400], verdict=verdict))
